@@ -57,12 +57,26 @@ type scenario struct {
 	inQueue     map[string]bool // stop scenarios: records found in the queue after the goroutine had ended (never taken)
 	late        map[string]bool // stop scenarios: records put after the cancellation
 	Desc        map[string]interface{}
+
+	bad      map[string]string // categories of the unencodable records handed over → kind ("" = zero value / nil pack)
+	badNotes []string          // kind@id of the good record it precedes (part of the case hash)
+	excused  map[string]bool   // records of a SendDirect call that panicked (reported there, once, with the call)
 }
 
 func newScenario(c *vlib.Ctx, section, path string, mode byte) *scenario {
 	return &scenario{c: c, Section: section, Path: path, Mode: mode, byID: map[string]*recSpec{},
 		tailIDs: map[string]bool{}, notAccepted: map[string]bool{},
-		inQueue: map[string]bool{}, late: map[string]bool{}, Desc: map[string]interface{}{}}
+		inQueue: map[string]bool{}, late: map[string]bool{}, Desc: map[string]interface{}{},
+		bad: map[string]string{}, excused: map[string]bool{}}
+}
+
+// handBad notes an unencodable record that is about to be handed over.
+func (sc *scenario) handBad(b *badRec, before string) {
+	sc.bad[b.ID] = b.Kind
+	sc.badNotes = append(sc.badNotes, b.Kind+"@"+before)
+	sc.c.Count("unencodable_records_handed_over", 1)
+	sc.c.Count("unencodable_records_via_"+sc.Path, 1)
+	sc.c.SetAdd("unencodable_kinds", b.Kind)
 }
 
 func (sc *scenario) hand(sp *recSpec) {
@@ -157,6 +171,9 @@ func (sc *scenario) detail(extra map[string]interface{}, packs []packView) map[s
 	}
 	d["handed_over"] = hl
 	d["handed_over_total"] = n
+	if len(sc.badNotes) > 0 {
+		d["unencodable_records_kind@before_record"] = sc.badNotes
+	}
 	if len(packs) > 300 {
 		packs = packs[:300]
 	}
@@ -322,6 +339,12 @@ func (sc *scenario) evaluate() {
 		for _, pr := range recs {
 			sp := sc.byID[pr.Category]
 			raw := payload[pr.Start:pr.End]
+			if kind, isBad := sc.bad[pr.Category]; sp == nil && isBad {
+				clean = false
+				fail("ZipSender:unencodable-record-emitted", fmt.Sprintf("pack %d contains a record with the category %q of an unencodable record (%s) that was handed over: nothing of such a record may be emitted", pi, pr.Category, kind),
+					map[string]interface{}{"pack": pi, "record": vlib.Hex(raw)})
+				continue
+			}
 			if sp == nil {
 				clean = false
 				fail("ZipPack:payload-undecodable", fmt.Sprintf("pack %d contains a record (category %q) that was never handed over", pi, pr.Category),
@@ -479,7 +502,7 @@ func (sc *scenario) evaluate() {
 				if n > 0 {
 					E := sc.Epochs[sp.setIndex]
 					fail(sc.attr(E, "logsink_queue_size", "ZipSender:queue-capacity"),
-						fmt.Sprintf("record %s was put while the queue already held %d records (the capacity in force) and was emitted nevertheless", sp.ID, E.S.Queue), nil)
+						fmt.Sprintf("record %s was put while the queue held at least as many records as the capacity in force and was emitted nevertheless", sp.ID), nil)
 				}
 				continue
 			}
@@ -491,6 +514,8 @@ func (sc *scenario) evaluate() {
 				continue
 			}
 			switch {
+			case n == 0 && sc.excused[sp.ID]:
+				c.Count("records_lost_in_panicking_senddirect_calls", 1)
 			case n == 0:
 				if missingFrom < 0 {
 					missingFrom = k
